@@ -360,6 +360,18 @@ func checkArrayData(info *atree.VerifSlabInfo, root bool, where string, minT, ma
 }
 
 func checkInlinedSlab(si *atree.VerifSlabInfo, where string, limit uint32) error {
+	// the inlined slab's own bookkeeping (header size = inlined prefix + elements, counts, limits)
+	_, minT, maxT, maxArr, maxMapElem, maxKey := atree.VerifThresholds()
+	switch si.Kind {
+	case "arrayData":
+		if err := checkArrayData(si, true, where+" (inlined)", minT, maxT, maxArr); err != nil {
+			return err
+		}
+	case "mapData":
+		if err := checkMapData(nil, si, true, where+" (inlined)", minT, maxT, maxMapElem, maxKey); err != nil {
+			return err
+		}
+	}
 	if !si.Inlined {
 		return violf("%s: slab %s is stored inline but not marked inlined", where, si.SlabID)
 	}
@@ -432,6 +444,12 @@ func checkElems(es []atree.VerifElem, level uint, list bool, size uint32, id atr
 			}
 			if e.Size > maxMapElem {
 				return violf("%s: slab %s element size %d > element limit %d", where, id, e.Size, maxMapElem)
+			}
+			if sub, ok := unwrapStorable(e.Value).(atree.Slab); ok {
+				si := atree.VerifDescribeSlab(sub)
+				if err := checkInlinedSlab(&si, where, maxMapElem); err != nil {
+					return err
+				}
 			}
 		case "inlineGroup":
 			if list {
